@@ -191,11 +191,14 @@ pub fn random_transport(plan: &mut ClientPlan, rng: &mut Rng) {
     plan.pt.bmp_reversed = rng.pct(30);
     plan.pt.rich_status = rng.pct(30);
     plan.pt.abort_extras = if rng.pct(30) { 1 + rng.below(4) as u8 } else { 0 };
+    plan.pt.status_currency = if rng.pct(20) { Some(*rng.pick(&[752u16, 826, 978, 840])) } else { None };
     plan.pt.status_seed = rng.next_u64();
-    plan.pt.receipt_start = match rng.below(5) {
-        0 => 1,
-        1 => 9999,
-        2 => 9998,
+    plan.pt.receipt_start = match rng.below(8) {
+        0 => 9999,
+        1 => 9998,
+        2 => 1,
+        3 => 9997,
+        4 => 231,
         _ => rng.range(1, 9999) as u16,
     };
 }
@@ -844,6 +847,8 @@ impl Check for ClientCheck {
                     ]);
                     p.cfg.pre_auth = pre;
                     p.cfg.currency = [752u16, 826, 978][(i % 3) as usize];
+                    p.pt.receipt_start = [231u16, 9999, 1, 9998][((i / 3) % 4) as usize];
+                    p.pt.status_currency = if i % 5 == 4 { Some(840) } else { None };
                     p
                 }));
                 let n = match tier {
